@@ -135,6 +135,7 @@ def report(pid, tier, seed, m, sel, res, findings, cmd, t0, outdir):
         "rule": "one obligation per overlay clause tagged with the property (ensures, loop invariant, decreases, proof assertion block) plus, for C04, one per syntactic built-in obligation site (unchecked access, unwrap, arithmetic, index, call)",
         "repo_head": m.get("repo_head"),
         "rewrites_applied": sorted(set(r for k in selected for r in m["functions"][k].get("rewrites", []))),
+        "functions_new_in_source_without_contract": m.get("without_record", []),
         "other_properties_failing_in_shared_functions": sorted(set(t for f in others for t in f["tags"])),
     }
     rc = 0
@@ -170,6 +171,8 @@ def report(pid, tier, seed, m, sel, res, findings, cmd, t0, outdir):
             lines.append("UNDECIDED property=%s: %s in %s (%s)" % (pid, f["msg"], f["fn"], f["kind"]))
     for f in others[:5]:
         lines.append("NOTE: obligation of other properties %s fails in a shared function: %s (%s)" % (",".join(f["tags"]), f["clause"] or f["fn"], f["msg"]))
+    for k in m.get("without_record", []):
+        lines.append("NOTE: function %s is not known to the overlay (new in the source): verified for built-in obligations only" % k)
     wall = time.time() - t0
     if rc == 0:
         lines.append("OK property=%s tier=%s: %d/%d obligations discharged in %d functions (%.1fs)" % (pid, tier, discharged, ob, len(selected), wall))
